@@ -81,6 +81,24 @@ var spKinds = []spKind{
 		}
 		return out
 	}, false, true, false},
+	{"SelectStmt.Comms", func(n int) string {
+		return "package p\n\nfunc f() {\n\tselect {\n" + labels(n, func(i int) string { return fmt.Sprintf("\tcase <-e%d:", i) }, "\n") + "\n\t}\n}\n"
+	}, func(f *dst.File) []dst.Node {
+		var out []dst.Node
+		for _, s := range f.Decls[0].(*dst.FuncDecl).Body.List[0].(*dst.SelectStmt).Body.List {
+			out = append(out, s)
+		}
+		return out
+	}, false, true, false},
+	{"TypeSwitchStmt.Cases", func(n int) string {
+		return "package p\n\nfunc f() {\n\tswitch x.(type) {\n" + labels(n, func(i int) string { return fmt.Sprintf("\tcase e%d:", i) }, "\n") + "\n\t}\n}\n"
+	}, func(f *dst.File) []dst.Node {
+		var out []dst.Node
+		for _, s := range f.Decls[0].(*dst.FuncDecl).Body.List[0].(*dst.TypeSwitchStmt).Body.List {
+			out = append(out, s)
+		}
+		return out
+	}, false, true, false},
 	{"CompositeLit.Elts", func(n int) string {
 		return "package p\n\nvar x = []int{\n" + labels(n, func(i int) string { return fmt.Sprintf("\te%d,", i) }, "\n") + "\n}\n"
 	}, func(f *dst.File) []dst.Node {
@@ -268,7 +286,7 @@ func spPrint(k spKind, es []spElem) (lines [][]string, text string, errMsg strin
 	body := strings.TrimPrefix(strings.TrimPrefix(text, spQualHead), "package p\n\n")
 	body = strings.TrimSuffix(body, "\n")
 	ls := strings.Split(body, "\n")
-	if k.Name == "SwitchStmt.Cases" && len(ls) >= 3 {
+	if (k.Name == "SwitchStmt.Cases" || k.Name == "SelectStmt.Comms" || k.Name == "TypeSwitchStmt.Cases") && len(ls) >= 3 {
 		ls = ls[1 : len(ls)-1] // drop "func f() {" and its "}"
 	}
 	for i, l := range ls {
